@@ -47,6 +47,15 @@ mod verif_native_multiformat {
                 }
             }
         }
+        // a tag beyond the u32 range is another codec too: it must be rejected, not truncated to a known one
+        for high in [0x10u8, 0x20, 0x40, 0x70] {
+            let foreign: Vec<u8> = vec![0x81, 0x84, 0x80, 0x80, high, 7];   // varint(0x0201 + (high >> 4) * 2^32), then one payload byte
+            if let Ok(v) = decode_multiformat::<u8, _>(&foreign, 0x0201, &ByteFormat) {
+                println!("VERIF-JOB C27.roundtrip FAIL a payload tagged 0x{:x}_0000_0201 (bytes {foreign:02x?}) decodes as codec 0x0201: Ok({v})", high >> 4);
+                panic!("tag beyond u32 misread");
+            }
+            cases += 1;
+        }
         println!("VERIF-JOB C27.roundtrip CASES {cases}");
     }
 }
